@@ -160,6 +160,8 @@ func c13Historical(c *Ctx) {
 			"(opchild/keeper.Keeper).RegisterExecutorChangePlan": "1", // via NewValidator (plan validator)
 			"(opchild/keeper.MsgServer).RemoveValidator":         "0",
 			"(opchild.AppModule).EndBlock":                       "0", // ChangeExecutor zeroes every stored power
+			// off-chain launcher (only in the thorough tier's wider scope): builds the genesis validator through NewValidator
+			"contrib/launchtools/steps.InitializeGenesis": "1",
 		}
 		eff := c.W.BuildEffects()
 		seen := map[string]bool{}
@@ -199,7 +201,7 @@ func c13Historical(c *Ctx) {
 			}
 		}
 		for n := range allowed {
-			if !seen[n] {
+			if !seen[n] && !strings.HasPrefix(n, "contrib/") {
 				o.Fail("-", "expected ConsPower write in "+n+" not found (floor)", nil)
 			}
 		}
